@@ -108,6 +108,9 @@ class Gateway:
 
         value = str(value)
 
+        if ";" in value or "\n" in value or "\r" in value:
+            raise ValueError(f"Value can not be sent in a message: {value!r}")
+
         msg = Message(
             node_id=sensor.sensor_id,
             child_id=child_id,
